@@ -100,7 +100,7 @@ func c10History(c *rt.Ctx, fsType string, h int) {
 		c.Rep.Inconclusive = append(c.Rep.Inconclusive, "set-up trees differ (harness): "+fmt.Sprint(fsx.Diff(insideSnap(), fsx.Snap(ref, "/", fsx.SnapOpts{}), false, 4)))
 		return
 	}
-	gcfg := gen.Cfg{Root: "/w", Names: []string{"a", "b", "c"}, Depth: 3, Links: true, Owners: true, Chdir: true, Specials: true, EmptyPath: false, Unclean: true, AvoidRootOps: true, Handles: true, Temps: true}
+	gcfg := gen.Cfg{Root: "/w", Names: []string{"a", "b", "c"}, Depth: 3, NoChange: true, Links: true, Owners: true, Chdir: true, Specials: true, EmptyPath: false, Unclean: true, AvoidRootOps: true, Handles: true, Temps: true}
 	g := gen.New(gcfg, r)
 	env, renv := fsx.NewEnv(bp), fsx.NewEnv(ref)
 	var hist []string
